@@ -14,6 +14,7 @@ TOL = Fraction(1e-8)          # NormalFormGame / Player default `tol`
 TOL_PIV = 1e-10
 TOL_RATIO_DIFF = 1e-15
 ENV = Fraction(1, 10 ** 9)    # rounding envelope for probabilities (model Rat vs code double)
+NEG = Fraction(1, 10 ** 12)   # a probability may be negative by rounding noise only
 MAXIT = 10 ** 6
 
 
@@ -35,7 +36,7 @@ def nash_defect(A, B, x, y):
     if len(x) != m or len(y) != n:
         return "wrong lengths %d,%d" % (len(x), len(y))
     for name, v in (("x", x), ("y", y)):
-        if any(t < 0 for t in v):
+        if any(t < -NEG for t in v):   # below rounding noise
             return "%s has a negative entry %s" % (name, float(min(v)))
         if abs(sum(v) - 1) > ENV:
             return "%s sums to %r" % (name, float(sum(v)))
